@@ -105,11 +105,71 @@ def case_ble_write(p):
     return out
 
 
-CASES = {"ble_read": case_ble_read, "ble_write": case_ble_write}
+def case_ble_write_hangup(p):
+    """The accessory answers a write (or the execute step of a timed write) and hangs up right after the data of its answer.  Whatever the
+    library makes of the lost link: an item the accessory REJECTED is not presented as written and listeners are not told its value."""
+    from vt.env.blerig import BleRig
+
+    ids, vec = p["ids"], p["vec"]
+    out = []
+    rig = BleRig(seed=p.get("seed", 0))
+    try:
+        rig.run(rig.pairing.get_characteristics([(1, 9)]))  # (session up, un-gated)
+        notes = []
+        rig.pairing.dispatcher_connect(lambda ev: notes.append(dict(ev)))
+        rig.acc.script = {}
+        for i, s_ in zip(ids, vec):
+            rig.acc.script[(bleacc.OP_WRITE, i)] = s_
+            rig.acc.script[(bleacc.OP_EXEC_WRITE, i)] = s_
+        rig.gated = True
+        task = rig.loop.create_task(rig.pairing.put_characteristics([(1, i, VALS[i]) for i in ids]))
+        hung = False
+        for _ in range(400):
+            rig.loop.run_until_idle()
+            if task.done():
+                break
+            live = [w for w in rig.waiting if not w[0].done()]
+            rig.waiting[:] = live
+            if not live:
+                if not rig.loop.fire_next_timer():
+                    break
+                continue
+            w = live[0]
+            target = ids[p["at"]]
+            if not hung and w[1] == "read" and w[2] == target and len(rig.acc.out.get(target, [])) == 1:
+                hung = True
+                rig.release(override="then-drop")  # the last fragment of the answer for this item, then the link is gone
+            else:
+                rig.release()
+        rig.gated = False
+        det = {"transport": "ble", "ids": ids, "statuses": list(vec), "hangs_up_after_item": p["at"]}
+        if not task.done():
+            task.cancel()
+            return [("ble:write-never-completes-after-the-accessory-hung-up", det)]
+        res = task.result() if not task.cancelled() and task.exception() is None else None
+        told = set()
+        for ev in notes:
+            told |= {k[1] for k in ev}
+        rejected = [i for i, s_ in zip(ids, vec) if s_ != 0 and i in WRITABLE]
+        for i in rejected:
+            if i in told:
+                out.append(("ble:listener-notified-of-rejected-write:accessory-hung-up-after-its-answer", dict(det, key=i)))
+            if res is not None and (res.get((1, i)) is None or res[(1, i)].get("status") in (None, 0)):
+                out.append(("ble:rejected-write-not-reported:accessory-hung-up-after-its-answer", dict(det, key=i, result={str(k): str(v) for k, v in res.items()})))
+    finally:
+        rig.close()
+    return out
+
+
+CASES = {"ble_read": case_ble_read, "ble_write": case_ble_write, "ble_write_hangup": case_ble_write_hangup}
 
 
 def plan(tier):
     work = []
+    for ids in ([9], [11], [9, 10], [10, 9, 12]):
+        for vec in itertools.product([0, 2, 6], repeat=len(ids)):
+            for at in range(len(ids)):
+                work.append(("ble_write_hangup", {"ids": ids, "replies": [None], "vec": list(vec), "at": at}))
     for ids in READ_SETS:
         alph = PDU_STATUSES if len(ids) <= (2 if tier == "quick" else 3) else [0, 4, 6]
         vecs = list(itertools.product(alph, repeat=len(ids)))
